@@ -12,7 +12,8 @@ ENV = dict(os.environ, CARGO_NET_OFFLINE="true", CARGO_TARGET_DIR=os.path.join(R
 ROUNDS = 9
 
 def miri(seed, build_only=False):
-    env = dict(ENV, MIRIFLAGS=f"-Zmiri-seed={seed} -Zmiri-preemption-rate=0.1 -Zmiri-permissive-provenance -Zmiri-disable-stacked-borrows")
+    rate = (0.03, 0.1, 0.3)[seed % 3]  # swarm style: how often the scheduler pre-empts varies with the seed
+    env = dict(ENV, MIRIFLAGS=f"-Zmiri-seed={seed} -Zmiri-preemption-rate={rate} -Zmiri-permissive-provenance -Zmiri-disable-stacked-borrows")
     p = subprocess.run(["cargo", "+nightly", "miri", "run", "--offline", "-q", "--", str(seed), str(ROUNDS)],
                        cwd=CRATE, env=env, capture_output=True, text=True, timeout=1800)
     out = p.stdout + p.stderr
@@ -44,10 +45,13 @@ def run(tier):
         print("harness error: m1 (Miri) run without result, seed %d:\n%s" % (bad[0]["seed"], bad[0]["tail"]), file=sys.stderr)
         return 2
     tot = {}
+    sigs = set()
     for r in res:
         if r["stats"]:
             for k, v in parse(r["stats"]).items():
-                if k != "seed":
+                if k == "order_sig":
+                    sigs.add(v)
+                elif k != "seed":
                     tot[k] = tot.get(k, 0) + v
     # determinism: the first seed twice, identical output lines
     again = miri(seeds[0])
@@ -64,14 +68,14 @@ def run(tier):
     if not det:
         print("harness error: m1 is not deterministic for seed %d" % seeds[0], file=sys.stderr)
         rc = rc or 2
-    cov = {"ran": True, "scheduler": "Miri interpreter, -Zmiri-seed=<s> -Zmiri-preemption-rate=0.1", "schedules": len(res),
-           "seeds": [seeds[0], seeds[-1]], "rounds_per_schedule": ROUNDS, "totals": tot, "deterministic_rerun_equal": det,
+    cov = {"ran": True, "scheduler": "Miri interpreter, -Zmiri-seed=<s> -Zmiri-preemption-rate=0.03|0.1|0.3 by seed%3", "schedules": len(res),
+           "seeds": [seeds[0], seeds[-1]], "rounds_per_schedule": ROUNDS, "distinct_interleavings": len(sigs), "interleaving_measure": "per schedule, the global order in which the 2-3 threads of each round began and ended their drop actions (tickets from one atomic counter), folded over the 9 rounds", "totals": tot, "deterministic_rerun_equal": det,
            "real_code": ["kestrel-crypto PayloadKey/PrivateKey constructors, Clone, Drop, Zeroize", "std::sync and the allocator interface as interpreted by Miri"],
            "stub": ["none (the watching allocator forwards to the system allocator)"],
            "sample": first["stats"], "violating_schedules": len(viol), "wall_s": round(time.time() - t0, 1)}
     merge(cov, len(res) * ROUNDS, len(viol))
     print(f"C20/m1: {len(res)} seeded schedules x {ROUNDS} concurrent-drop rounds under Miri, {tot.get('watched_blocks_released', 0)} watched heap blocks inspected at release, "
-          f"{tot.get('inline_secrets_inspected', 0)} inline secrets inspected, {len(viol)} violating schedules, {time.time() - t0:.1f}s")
+          f"{tot.get('inline_secrets_inspected', 0)} inline secrets inspected, {len(sigs)} distinct begin/end orders, {len(viol)} violating schedules, {time.time() - t0:.1f}s")
     return rc
 
 def merge(cov, evals, viol):
